@@ -10,7 +10,7 @@
    search on a finite map.  [observe] keeps the valid part of every returned column. *)
 From Coq Require Import List Arith Bool QArith Qcanon Lia.
 From PV Require Import C05.Model C05.Spec C05.ProofsNum C05.ProofsSpec C05.ProofsModel
-  C05.ProofsSearch C05.ProofsMass C05.ProofsExact C05.Proofs.
+  C05.ProofsSearch C05.ProofsMass C05.ProofsExact C05.ProofsRefine C05.ProofsSanity C05.Proofs.
 Import ListNotations.
 Local Open Scope nat_scope.
 
@@ -61,6 +61,49 @@ Theorem c05_model_exact_when_unpruned : forall V width fus lm len frames choices
      exists i, i < width /\ nth i P [] = p /\ nth i Ps NegInf = Fin (ctc_mass V L E p)).
 Proof. exact search_mass_exact. Qed.
 Print Assumptions c05_model_exact_when_unpruned.
+
+(* "the probability reported for a prefix equals the mass the standard prefix-beam recursion of
+   that width assigns to it": the returned slots whose mass is not -inf are exactly the entries
+   (prefix |-> nb + b) of a beam the width-[width] prefix beam search on a finite map reaches on the
+   element's own valid frames - including merges of an extension into an identical existing
+   prefix and whatever invalid slots the beam carried along the way *)
+Theorem c05_model_refines_pbs_ref : forall V width fus lm len frames choices, 1 <= V -> 1 <= width ->
+  choices_ok V width fus lm 0%Qc len 0 frames choices init_beam = true ->
+  let L := firstn len frames in
+  let E := fused_score fus lm L in
+  exists B, pbs_reach V width L E (length L) B /\
+    let '(P, Ls, Ps) := observe (search V width fus lm len frames choices) in
+    (forall i q, nth i Ps NegInf = Fin q ->
+       exists nb b, In (nth i P [], (nb, b)) B /\ q = (nb + b)%Qc) /\
+    (forall p nb b, In (p, (nb, b)) B ->
+       exists i, i < width /\ nth i P [] = p /\ nth i Ps NegInf = Fin (nb + b)%Qc).
+Proof. exact model_refines_pbs_ref. Qed.
+Print Assumptions c05_model_refines_pbs_ref.
+
+(* one step: the valid slots of the new beam are an admissible pruning of the map recursion's
+   candidates computed from the valid slots of the old beam *)
+Theorem c05_model_refines_pbs_ref_step : forall V width fr bm choice L E,
+  1 <= V -> 1 <= width -> inv V bm -> twins bm -> topk_facts V fr bm width choice ->
+  frame_agrees V fr bm L E (b_t bm) ->
+  pbs_keeps width (pbs_cands V L E (b_t bm) (view bm)) (view (fst (advance V fr bm width choice))).
+Proof. exact refine_step. Qed.
+Print Assumptions c05_model_refines_pbs_ref_step.
+
+(* the specification is the textbook one: [aligns] lists every label sequence exactly once, an
+   alignment is read to its collapse, and without a language model its weight is the product of
+   the frame probabilities *)
+Theorem c05_ctc_mass_is_textbook : forall V frames p,
+  ctc_mass V frames (plain_score frames) p
+  = qsum (map (fun a => if list_nat_eqb (collapse V a) p then path_prob V frames a else 0%Qc)
+              (aligns V (length frames))).
+Proof. exact ctc_mass_textbook. Qed.
+Print Assumptions c05_ctc_mass_is_textbook.
+
+Theorem c05_aligns_all_once : forall V n,
+  NoDup (aligns V n) /\
+  forall a, In a (aligns V n) <-> length a = n /\ Forall (fun c => c <= V) a.
+Proof. exact (fun V n => conj (aligns_nodup V n) (aligns_complete V n)). Qed.
+Print Assumptions c05_aligns_all_once.
 
 (* the CTC recursion itself, on the alignment sums (what both theorems above rest on) *)
 Theorem c05_alignment_mass_recursion : forall V frames E n p, Forall (fun x => x < V) p ->
